@@ -280,18 +280,65 @@ def rule_decode_side(repo, res):
                         where=f"pvl/decoder.py:{fn.lineno}"))
     # PVLDecoder.decode_datetime: trial order date, time, datetime; Z -> UTC; default zone
     fn = canon.canon_method(repo, "PVLDecoder", "decode_datetime")
-    tabs = [norm(n.args[3]) for n in ast.walk(fn) if isinstance(n, ast.Call) and norm(n.func) == "for_try_except" and len(n.args) >= 4]
-    ok = tabs == ["self.grammar.date_formats", "self.grammar.time_formats", "self.grammar.datetime_formats"]
-    res.oblige("DT", "PVLDecoder.decode_datetime tries date, time, then datetime formats of the grammar", ok=ok)
+    # outcome terms of decode_datetime (vsa.symx, private helpers interpreted): which format table gave the value, what
+    # was applied to it, and how many attempts had failed before
+    from . import symx
+    from .entryrules import _parse
+    X = symx.SymX(repo, "decoder", lambda c: True, cls="PVLDecoder", terms=True)
+    outs = X.run(repo.method("PVLDecoder", "decode_datetime"))
+    seen_tables = {}
+    bad_type, bad_order, other = [], [], []
+    for o in outs:
+        if o.kind != "return":
+            continue
+        text = symx.show(o.value)
+        caught = sum(1 for e in o.events if e[0] == "caught" and e[1] == "ValueError")
+        tree = _parse(text)
+        call = None
+        if tree is not None:
+            for n in ast.walk(tree):
+                if isinstance(n, ast.Call) and norm(n.func).split(".")[-1] == "for_try_except" and len(n.args) == 4:
+                    call = n
+        if call is None:
+            from .entryrules import _canon_cond
+            leap = any("is_leap_seconds" in a_ and v_ is True for a_, v_ in (_canon_cond(e[1], e[2]) for e in o.events if e[0] == "if"))
+            if not (tree is not None and norm(tree) in ("str(_P_value)", "_P_value") and leap):
+                other.append(text)
+            continue
+        table = norm(call.args[3]).replace("_P_", "")
+        chain = []
+        cur = tree
+        while cur is not call:
+            if isinstance(cur, ast.Call) and isinstance(cur.func, ast.Attribute):
+                chain.append(cur.func.attr)
+                cur = cur.func.value
+            else:
+                chain.append("?")
+                break
+        chain = chain[::-1]
+        seen_tables.setdefault(table, set()).add(tuple(chain))
+        want = {"self.grammar.date_formats": ([("date",)], 0), "self.grammar.time_formats": ([("time",), ("time", "replace")], 1),
+                "self.grammar.datetime_formats": ([(), ("replace",)], 2)}.get(table)
+        if want is None:
+            other.append(text)
+            continue
+        if tuple(chain) not in want[0]:
+            bad_type.append((table, ".".join(chain) or "<nothing>"))
+        if caught < want[1]:
+            bad_order.append((table, caught))
+    tabs = sorted(seen_tables)
+    ok = tabs == ["self.grammar.date_formats", "self.grammar.datetime_formats", "self.grammar.time_formats"] and not bad_order and not other
+    res.oblige("DT", f"PVLDecoder.decode_datetime tries date, time, then datetime formats of the grammar ({len(outs)} outcome paths)", ok=ok)
     if not ok:
-        res.add(Finding("DT", "PVLDecoder.decode_datetime", "format tables", f"decode_datetime consults {tabs}",
+        res.add(Finding("DT", "PVLDecoder.decode_datetime", "format tables", f"decode_datetime consults {tabs}"
+                        + (f"; tried out of order: {sorted(set(bad_order))}" if bad_order else "")
+                        + (f"; other values returned: {sorted(set(other))[:2]}" if other else ""),
                         where=f"pvl/decoder.py:{fn.lineno}"))
-    src = norm(fn, 5000)
-    ok = ".date()" in src and ".time()" in src
+    ok = not bad_type
     res.oblige("DT", "PVLDecoder.decode_datetime returns .date() for date formats and .time() for time formats", ok=ok)
     if not ok:
         res.add(Finding("DT", "PVLDecoder.decode_datetime", ".date()/.time()", "a date or time no longer decodes to the matching "
-                        "Python type", where=f"pvl/decoder.py:{fn.lineno}"))
+                        f"Python type: {sorted(set(bad_type))}", where=f"pvl/decoder.py:{fn.lineno}"))
     # zone attachment, on the path conditions of decode_datetime and the private helpers it calls: every
     # <value>.replace(tzinfo=Z) happens only when utcoffset() is None; Z = UTC only when the text ends with 'Z';
     # Z = the grammar's default zone only when it does not
